@@ -6,7 +6,7 @@ from ..boot import priv
 
 PROP = 'C05'
 LEVEL = 'exploration'
-INVARIANTS = ('no_convergence', 'no_progress', 'replicas_differ')
+INVARIANTS = ('no_convergence', 'no_progress', 'replicas_differ', 'laggard_offered_no_snapshot')
 for _i in INVARIANTS:
     INV_PROP[_i] = PROP
 RULE = ('one case = a fault phase drawn from the C01 schedule space (partitions, resets, holds, stalls, stale leaders, '
@@ -41,6 +41,31 @@ def wedge(w):
         except Exception as e:
             out.append('h%d:?%r' % (h.idx, e))
     return out
+
+
+class CatchUpTap(object):
+    """A leader whose log no longer reaches back to a follower's position has to send its snapshot.  'serialized: None'
+    is what it sends while its own serializer is busy; sent while the serializer is idle it means that the leader has
+    no snapshot at all: that follower stays behind for as long as this node leads."""
+
+    def __init__(self, world, oracle):
+        self.w = world
+        self.o = oracle
+
+    def on_send(self, src, node, msg, ok):
+        if isinstance(msg, dict) and msg.get('type') == 'append_entries' and 'serialized' in msg and msg['serialized'] is None:
+            h = self.w.hosts[src]
+            n = h.node
+            if n is None or h.doomed:
+                return
+            ser = priv(n, 'SyncObj', 'serializer')
+            if priv(ser, 'Serializer', 'pid') == 0:
+                self.w.probe('snapshot_missing_on_leader')
+                self.o.flag('laggard_offered_no_snapshot', 'leader %d has to bring %s up to date by snapshot (its log starts at %d) but has none to send and is not writing one' % (
+                    src, node.id, log_of(n)[0][1]))
+
+    def on_recv(self, dst, node, msg):
+        pass
 
 
 class C05Spec(c01.C01Spec):
@@ -80,7 +105,28 @@ class C05Spec(c01.C01Spec):
             s['max_subs'] = 150
             cfg['n_voters'] = rng.choice([2, 3, 3, 4])
             conf['connectionRetryTime'] = rng.choice([0, 0, 0.5])
+        elif rng.random() < 0.25:
+            # snapshots only on request and kept in memory: a node that was brought up to date by a snapshot keeps
+            # what it received as its only snapshot and may later, as leader, have to pass it on to another laggard
+            conf['logCompactionMinEntries'] = 1 << 30
+            conf['logCompactionMinTime'] = 1 << 30
+            conf['logCompactionBatchSize'] = rng.choice([64, 1024, 1 << 16])
+            conf['dump'] = False
+            conf['useFork'] = False
+            cfg['placement'] = 'memory'
+            cfg['n_voters'] = rng.choice([3, 4, 5])
+            s['w_compact'] = rng.choice([0.002, 0.005])
+            s['w_hold'] = rng.choice([0.05, 0.1])
+            s['w_sub'] = rng.choice([0.35, 0.8])
+            s['steps'] = rng.choice([2500, 4000])
+            s['max_subs'] = 150
+            # leaders change often (leader churn), followers lag behind trickling links
+            apply_churn(rng, cfg)
+            s['w_hold'] = rng.choice([0.05, 0.1])
         return cfg
+
+    def make_tap(self, world, oracle):
+        return CatchUpTap(world, oracle)
 
     def bound(self, cfg):
         c = cfg['conf']
